@@ -1,23 +1,49 @@
 (* Model/SourcesCases.v — the differential cases of the engines c23 and c24 (one sum type per engine, so
    that one cases.v carries every kind of case).  Executable definitions only. *)
-From Octo Require Export SourcesScan SourcesQueue SourcesStdin SourcesCsv SourcesJson.
+From Octo Require Export SourcesScan SourcesQueue SourcesStdin SourcesCsv SourcesJson SourcesCsvProj SourcesJsonInfer.
+
+(* CSV record-level case: header option, the records encoding/csv returns (header row included), the mask of
+   used columns, then the observation: names of all columns, records of the pruned read, "no error" *)
+Definition csvproj_case : Type := bool * list (list cell) * list bool * list bytes * list (list value) * bool.
+Definition rows_eqb (a b : list (list value)) : bool := list_eqb (list_eqb value_eqb_flat) a b.
+Definition csvproj_eval (run_model : bool) (c : csvproj_case) : bool :=
+  let '(header, records, keep, onames, orecs, ook) := c in
+  match csv_names ctext header records with
+  | Ok (names, data) =>
+      list_eqb bytes_eqb names onames &&
+      match infer_csv (length names) data with
+      | Ok tys =>
+          let '(out, e) :=
+            if run_model then csv_run exec_cell header names (select keep (combine names tys)) records
+            else spec_rows exec_cell keep tys data in
+          rows_eqb out orecs && Bool.eqb (is_ok e) ook
+      | _ => false
+      end
+  | _ => negb ook
+  end.
+(* tie: the model of execution.go (name lookup, indicesToRead, d.fields[i]); spec: the statement of
+   C23_csv_rows read on the observation (kept cells of each record, each converted at its own column's type) *)
+Definition csvproj_tie := csvproj_eval true.
+Definition csvproj_spec := csvproj_eval false.
 
 Inductive c23_case : Type :=
 | CLines (c : lines_case)
 | CQueue (c : queue_case)
-| CStdin (c : stdin_case).
+| CStdin (c : stdin_case)
+| CCsv (c : csvproj_case).
 
 Definition c23_tie (c : c23_case) : bool :=
-  match c with CLines x => lines_tie x | CQueue x => queue_tie x | CStdin x => stdin_tie x end.
+  match c with CLines x => lines_tie x | CQueue x => queue_tie x | CStdin x => stdin_tie x | CCsv x => csvproj_tie x end.
 Definition c23_spec (c : c23_case) : bool :=
-  match c with CLines x => lines_spec_ok x | CQueue _ => true | CStdin x => stdin_spec x end.
+  match c with CLines x => lines_spec_ok x | CQueue _ => true | CStdin x => stdin_spec x | CCsv x => csvproj_spec x end.
 
 Inductive c24_case : Type :=
 | C24Parse (c : intparse_case)
 | C24Csv (c : csv_case)
 | C24JValue (c : jvalue_case)
 | C24JFile (c : jfile_case)
-| C24JInfer (c : jinfer_case).
+| C24JInfer (c : jinfer_case)
+| C24JNested (c : jnested_case).
 
 Definition c24_tie (c : c24_case) : bool :=
   match c with
@@ -26,6 +52,7 @@ Definition c24_tie (c : c24_case) : bool :=
   | C24JValue x => jvalue_tie x
   | C24JFile x => jfile_tie x
   | C24JInfer x => jinfer_tie x
+  | C24JNested x => jnested_tie x
   end.
 Definition c24_spec (c : c24_case) : bool :=
   match c with
@@ -34,4 +61,5 @@ Definition c24_spec (c : c24_case) : bool :=
   | C24JValue x => jvalue_spec x
   | C24JFile x => jfile_spec x
   | C24JInfer _ => true
+  | C24JNested x => jnested_spec x
   end.
